@@ -226,6 +226,8 @@ pub fn class_parser(e: &GenericParserError) -> ErrClass {
 
 pub fn class_builder(e: &GenericBuilderError) -> ErrClass {
     match e {
+        // the same refusal may travel as the builder error or as the claim error of the same name
+        GenericBuilderError::ClaimError { source: PasetoClaimError::DuplicateTopLevelPayloadClaim(k) } => ErrClass::Dup(k.clone()),
         GenericBuilderError::ClaimError { source } => class_claim(source),
         GenericBuilderError::DuplicateTopLevelPayloadClaim(k) => ErrClass::Dup(k.clone()),
         GenericBuilderError::CipherError { source } => class_core(source),
